@@ -14,6 +14,7 @@ import Martian.Regex
 import Proofs.Lexer
 import Proofs.Regex
 import Proofs.LexerRegex
+import Proofs.LexerRegexString
 import Gen.Facts
 
 namespace Props.C08
@@ -212,6 +213,34 @@ theorem int_rule_admits_only_go_syntax (s t : Bytes)
 
 example : goIntSyntax [0x2D, 0x30, 0x37] = true ∧ goIntSyntax [0x2D] = false ∧ goIntSyntax [0x31, 0x5F, 0x30] = false := by
   decide
+
+theorem string_rule_parses : parse Gen.tokStringRegex = some stringRe := by decide
+
+/- Full statement (NOT proved; the missing half is "whatever `matchString`
+   returns is matched by the regex", i.e. completeness of the regex w.r.t. the
+   recogniser — it is covered by the correspondence runs only):
+     theorem string_rule_is_regex (s : Bytes) :
+       (parse Gen.tokStringRegex).map (fun r => pmatch r s) = some (matchString s) -/
+/-- Whatever prefix the leftmost-first semantics of the parsed, regenerated
+regex of `tokStringRule` selects is returned by the hand-written string
+recogniser — for every input, including invalid UTF-8 (a negated class
+consumes one rune as `utf8.DecodeRune` delimits it). -/
+theorem string_rule_regex_sound_partial (s t : Bytes)
+    (h : (parse Gen.tokStringRegex).map (fun r => pmatch r s) = some (some t)) :
+    matchString s = some t := by
+  rw [string_rule_parses] at h
+  simp only [Option.map_some, Option.some.injEq] at h
+  exact pmatch_stringRe_sound s t h
+
+/-- Hence every LITSTRING token that Go's regexp can return for the rule's
+regex is unquoted without a panic (all escape forms, any bytes). -/
+theorem string_regex_tok_unquote_total (s t : Bytes)
+    (h : (parse Gen.tokStringRegex).map (fun r => pmatch r s) = some (some t)) :
+    ∃ out, unquoteBytes t = some out :=
+  matchString_unquote (string_rule_regex_sound_partial s t h)
+
+example : (parse Gen.tokStringRegex).map (fun r => pmatch r [0x22, 0x61, 0x5C, 0x6E, 0xC3, 0xA9, 0x22, 0x20])
+    = some (some [0x22, 0x61, 0x5C, 0x6E, 0xC3, 0xA9, 0x22]) := by decide
 
 end regex
 
